@@ -12,7 +12,7 @@ pub fn prop() -> Prop {
   Prop {
     id: "C18",
     rule: "case = the C01 pipeline/script generator (depth <= 4, whole catalogue incl. scheduler operators on the virtual scheduler, every scheduler mode); each case is built twice: (L) Subject/Subscriber/BoxOp/MutRc forms with every per-node _threads flag off, (T) SubjectThreads/SubscriberThreads/BoxOpThreads and every _threads operator form; both run the same script with the same scheduler choices on one thread. \
-           Oracle: identical (step, virtual time, notification) lists, identical is_closed() samples and finalize counts; a panic in exactly one build is a difference. Non-trivial: the AST contains >= 1 operator that has two forms and >= 2 notifications were delivered. Distinct by hash(case).",
+           Oracle: identical (step, virtual time, notification) lists, identical is_closed() samples and finalize counts after every step (a quarter of the cases contain an unsubscribe() / guard drop at a generated position); a panic in exactly one build is a difference. Non-trivial: the AST contains >= 1 operator that has two forms and >= 2 notifications were delivered. Distinct by hash(case).",
     assumptions: &["both builds use the same virtual scheduler and clock; callbacks do not re-enter"],
     parts: vec![Part { name: "pairs", run: run_case, tape_len: 160, quick_cases: 1_500_000, thorough_cases: 30_000_000, exhaustive_depth: None, exhaustive_budget: 0, exh_quick: false }],
   }
@@ -44,6 +44,12 @@ fn two_forms(n: &Node) -> bool {
 fn run_case(c: &mut dyn Choices, ctx: &Ctx) -> Outcome {
   let mut base = gen_pcase(c, 4, true);
   maybe_lengthen(c, &mut base);
+  // (appended picks) a quarter of the cases unsubscribe at a generated position of the script: both forms must tear
+  // down alike (finalize callbacks, is_closed(), nothing afterwards)
+  if c.pick(4) == 3 {
+    let pos = c.pick(base.script.len() + 1);
+    base.script.insert(pos, if c.pick(4) == 0 { Step::DropGuard } else { Step::Unsub });
+  }
   let l = PCase { node: base.node.with_flags(false), threads: false, ..base.clone() };
   let t = PCase { node: base.node.with_flags(true), threads: true, ..base.clone() };
   let rl = run_pcase(&l, true);
@@ -54,7 +60,7 @@ fn run_case(c: &mut dyn Choices, ctx: &Ctx) -> Outcome {
   let mut notes: Vec<String> = vec![];
   let verdict = match (&rl, &rt) {
     (Ok(a), Ok(b)) => {
-      if a.recs == b.recs && a.closed == b.closed && a.counters.finalize_calls == b.counters.finalize_calls {
+      if a.recs == b.recs && a.closed == b.closed && a.counters.finalize_calls == b.counters.finalize_calls && a.finalize_after_step == b.finalize_after_step {
         Verdict::Ok
       } else {
         let kind = if a.recs != b.recs {
@@ -66,7 +72,7 @@ fn run_case(c: &mut dyn Choices, ctx: &Ctx) -> Outcome {
         };
         Verdict::Violation {
           sig: format!("{kind}:{}", op_names(&base.node)),
-          detail: format!("local: {} | threads: {} | closed local {:?} threads {:?}", a.short(), b.short(), a.closed, b.closed),
+          detail: format!("local: {} | threads: {} | closed local {:?} threads {:?} | finalize runs after each step local {:?} threads {:?}", a.short(), b.short(), a.closed, b.closed, a.finalize_after_step, b.finalize_after_step),
         }
       }
     }
